@@ -244,6 +244,12 @@ fn gen_script(rng: &mut Rng, qid: u64, exhaustive_fault: Option<(usize, PageFaul
             states.push(Some(s));
         }
     }
+    // legal and unusual: "more pages" with a paging state of length ZERO (at most one page per result, so
+    // that the node can still tell the pages apart)
+    if n_pages >= 2 && rng.chance(1, 5) {
+        let p = rng.usize(0, n_pages - 2);
+        states[p] = Some(Vec::new());
+    }
     let mut faults = vec![PageFault::None; n_pages];
     match exhaustive_fault {
         Some((i, f)) => faults[i] = f,
@@ -398,6 +404,9 @@ fn judge(o: &mut Outcome, s: &Script, r: &ScriptOut) {
     let all: Vec<i64> = s.pages.iter().flatten().copied().collect();
     let key = fw::hash64(format!("{:?}{:?}{:?}{}{}{}{}", s.pages.iter().map(|p| p.len()).collect::<Vec<_>>(), s.faults, s.states.iter().map(|x| x.as_ref().map(|b| b.len())).collect::<Vec<_>>(), s.prepared, s.idempotent, s.fallthrough, s.consumer).as_bytes());
     o.case(key, s.pages.len() > 1 || !all.is_empty());
+    if s.states.iter().any(|x| x.as_ref().is_some_and(|b| b.is_empty())) {
+        o.class("paging-state:zero-length-with-more-pages");
+    }
     for f in &s.faults {
         o.class(&format!("fault:{f:?}"));
     }
@@ -589,6 +598,7 @@ pub fn run(ctx: &Ctx) -> Outcome {
         "fault:Delay",
         "fault:Unprepared",
         "fault:NodeDown",
+        "paging-state:zero-length-with-more-pages",
         "pager:execute_iter",
         "pager:query_iter",
         "pager:control-connection",
